@@ -245,7 +245,7 @@ func CheckOwnership(res *ChurnResult) (findings []Finding, keysSeen int) {
 			owner := OwnerOf(ids, h)
 			if owner != id {
 				findings = append(findings, Finding{Key: "key-outside-ownership-range", What: fmt.Sprintf("node %d stores key %s (hash %d) whose owner in ring %v is %d", id, k, h, ids, owner),
-					Witness: map[string]any{"node": id, "key": k, "hash": h, "ring": ids, "owner": owner, "member_log_tail": tail(res.MemberLog, 30)}})
+					Witness: map[string]any{"node": id, "key": k, "hash": h, "ring": ids, "owner": owner, "member_log": res.MemberLog, "hook_log": res.HookLog, "store_events": storeEvents(res, k+"/")}})
 			}
 		}
 	}
